@@ -8,7 +8,8 @@ Types == {"reg", "dir", "symlink", "hardlink", "char", "fifo"}
 NameLens == {1, 60, 99, 100, 101, 155, 200, 256}
 Numerics == {"small", "maxoctal", "huge"}
 Unames == {"empty", "ascii", "nonascii"}
-NameStarts == {"plain", "MZ", "PK34", "pdf", "gif", "dotslash", "nonascii"}
+NameStarts == {"plain", "MZ", "PK34", "pdf", "gif", "dotslash", "nonascii",
+               "bz2", "xar", "fits", "bmp", "id3", "flac", "riff", "ftyp"}   \* signatures of root formats consulted AFTER tar
 Init == s \in [fmt : Formats, typ : Types, nlen : NameLens, num : Numerics, uname : Unames, start : NameStarts]
 Next == UNCHANGED s
 Spec == Init /\ [][Next]_s
